@@ -7,8 +7,14 @@ cases = json.load(open(V + '/selftest.json'))
 props = sorted({p for c in cases for p in c['checks'] + c['missed']})
 res = {}
 out = tempfile.mkdtemp()
+import sys
+LOGS = sys.argv[1] if len(sys.argv) > 1 else None   # directory with <prop>.log of earlier thorough runs (bin/daecheck -p <prop> -tier thorough)
 for p in props:
-    r = subprocess.run([V + '/bin/daecheck', '-p', p, '-tier', 'thorough', '-out', out], capture_output=True, text=True, errors='replace')
+    if LOGS:
+        class R: pass
+        r = R(); r.stdout = open(os.path.join(LOGS, p + '.log'), errors='replace').read() if os.path.exists(os.path.join(LOGS, p + '.log')) else ''; r.returncode = 0
+    else:
+        r = subprocess.run([V + '/bin/daecheck', '-p', p, '-tier', 'thorough', '-out', out], capture_output=True, text=True, errors='replace')
     for ln in r.stdout.splitlines():
         m = re.match(r'\s+selftest (\S+)\s+expect=(\S+)\s+outcome=(\S+)\s*(.*)', ln)
         if m:
